@@ -43,6 +43,9 @@ structure Cfg where
   keypadRecorded : Bool
   /-- `tickit_term_resume` sends the cached pen again after the driver's resume. -/
   resumeResendsPen : Bool
+  /-- `chpen` sends an underline style ≥ 2 as one parameter (21 for double, 4 otherwise) when the terminal
+      does not understand `:` sub-parameters, instead of `4;<style>`. -/
+  underStyleSafe : Bool
   /-- a value the program has set explicitly (cursor visibility, blink, shape) is no longer overwritten by
       a DECRPM / DECRQSS reply that arrives afterwards: `setctl_int` marks the field `initialised` and the
       reply handlers only fill in fields that are not. -/
@@ -53,10 +56,11 @@ deriving DecidableEq, Repr
 def Cfg.tree : Cfg :=
   { keypadRecorded := ModeLayout.keypadRecorded
     resumeResendsPen := ModeLayout.resumeResendsPen
+    underStyleSafe := ModeLayout.underStyleSafe
     repliesGuarded := ModeLayout.repliesGuarded }
 
 /-- The variant with all three repairs. -/
-def Cfg.repaired : Cfg := { keypadRecorded := true, resumeResendsPen := true, repliesGuarded := true }
+def Cfg.repaired : Cfg := { keypadRecorded := true, resumeResendsPen := true, underStyleSafe := true, repliesGuarded := true }
 
 /-! ## Part 1 — the xterm driver -/
 
@@ -333,6 +337,16 @@ def deltaParams (delta : PenMap) : List Param :=
     | none => []
     | some v => attrParams a v
 
+/-- The `TICKIT_PEN_UNDER` arm where it has been repaired (`single` = the repair is present and the
+    terminal has no `:` sub-parameters): a style ≥ 2 becomes one parameter. -/
+def attrParams' (single : Bool) (a : Attr) (v : Int) : List Param :=
+  if single ∧ a = .under ∧ v ≠ 0 ∧ v ≠ 1 then [⟨if v = 2 then 21 else 4, false⟩] else attrParams a v
+
+def deltaParams' (single : Bool) (delta : PenMap) : List Param :=
+  Attr.all.flatMap fun a => match delta a with
+    | none => []
+    | some v => attrParams' single a v
+
 /-- Rendering `params[]` between `ESC [` and `m`. -/
 def renderParams (colon : Bool) : List Param → Out
   | [] => []
@@ -340,8 +354,8 @@ def renderParams (colon : Bool) : List Param → Out
   | p :: q :: rest => showInt p.val ++ [if p.sub && colon then 58 else 59] ++ renderParams colon (q :: rest)
 
 /-- `chpen(delta, final)`. -/
-def drvChpen (d : XDrv) (delta final : PenMap) : Out :=
-  let ps := deltaParams delta
+def drvChpen (cfg : Cfg) (d : XDrv) (delta final : PenMap) : Out :=
+  let ps := deltaParams' (cfg.underStyleSafe && decide (d.cap.csiSubColon = 0)) delta
   if ps.isEmpty then []
   else [27, 91] ++ renderParams (d.cap.csiSubColon ≠ 0) (if isNondefault final then ps else []) ++ [109]
 
@@ -401,14 +415,14 @@ def penDelta (isSet : Bool) (cur pen : PenMap) : PenMap :=
   fun a => if penSkips isSet cur pen a then none else some (pen.getD a)
 
 /-- `tickit_term_setpen` (`isSet = true`) and `tickit_term_chpen`. -/
-def Term.putpen (isSet : Bool) (t : Term) (pen : PenMap) : Term × Out :=
+def Term.putpen (cfg : Cfg) (isSet : Bool) (t : Term) (pen : PenMap) : Term × Out :=
   let next := penNext isSet t.pen pen
-  ({ t with pen := next }, drvChpen t.drv (penDelta isSet t.pen pen) next)
+  ({ t with pen := next }, drvChpen cfg t.drv (penDelta isSet t.pen pen) next)
 
 /-- `tickit_term_resume`. -/
 def Term.resume (cfg : Cfg) (t : Term) : Term × Out :=
   ({ t with tk := t.tk.map fun _ => true },
-   drvResume t.drv ++ (if cfg.resumeResendsPen then drvChpen t.drv t.pen t.pen else []))
+   drvResume t.drv ++ (if cfg.resumeResendsPen then drvChpen cfg t.drv t.pen t.pen else []))
 
 /-- `tickit_term_input_push_bytes` with one reply: libtermkey is created (started) if need be; bytes
     pushed while it is stopped wait in its buffer. -/
@@ -487,10 +501,10 @@ def Sys.step (cfg : Cfg) (s : Sys) : Op → StepRes
     let r := setctlStr c payload
     { sys := s, out := r.1, ret := some r.2 }
   | .setpen p =>
-    let r := Term.putpen true s.term p
+    let r := Term.putpen cfg true s.term p
     { sys := { s with term := r.1 }, out := r.2 }
   | .chpen p =>
-    let r := Term.putpen false s.term p
+    let r := Term.putpen cfg false s.term p
     { sys := { s with term := r.1 }, out := r.2 }
   | .print bytes => { sys := s, out := bytes }
   | .clear => { sys := s, out := clearScreen }
